@@ -12,13 +12,17 @@ from __future__ import annotations
 import itertools
 import sqlite3
 
+from hypothesis import HealthCheck, given, seed, settings, strategies as st
+
 from pbt import lex, prog
 from pbt.core import Collector, HarnessError, mksig
 
 ID = "C09"
 RULE = ("exhaustive product: (limit, offset) in (absent|0|positive)^2 x setter plans (limit/offset both orders, slice, fetch_next, overwrites) x "
         "ORDER BY yes/no x 5 embedding positions x 6 dialect classes x inline/parameterised, plus TOP. Non-trivial = limit or offset present "
-        "(both-absent cases only check that no tail is emitted); distinct = distinct enumerated case.")
+        "(both-absent cases only check that no tail is emitted); distinct = distinct enumerated case. Second family (Hypothesis): pagination at two query nodes at once "
+        "(FROM subquery / IN subquery / set-operation operand + the enclosing query) with values up to 2^63-1, three call styles, other parameters before and between; "
+        "each node's tail is checked against the statement without it, SQLite results against a list-slicing model; non-trivial there = both nodes paginated.")
 ASSUMPTIONS = [
     "row-limiting grammars: SQLite/MySQL LIMIT n [OFFSET m] (offset alone needs LIMIT <no-limit sentinel>); PostgreSQL and the generic class [LIMIT n] [OFFSET m]; "
     "SQL Server ORDER BY .. OFFSET m ROWS [FETCH NEXT n ROWS ONLY]; Oracle [OFFSET m ROWS] [FETCH NEXT n ROWS ONLY]",
@@ -199,9 +203,15 @@ def db():
 
 def check_one(cls, position, orderby, L, O, plan_steps, par):
     """-> list of (failure kind, detail)"""
-    out = []
     p0 = program(cls, position, orderby, [])
     p1 = program(cls, position, orderby, plan_steps)
+    exec_ok = cls == "sqlite" and position in ("top", "from_sub", "setop_self") and (orderby or (L is None and O is None))
+    return check_pair(cls, p0, p1, L, O, orderby, par, exec_ok)
+
+
+def check_pair(cls, p0, p1, L, O, orderby, par, exec_ok):
+    """p1 is p0 plus the pagination calls (limit L, offset O) at one query node -> list of (failure kind, detail)"""
+    out = []
     try:
         q0 = prog.build_program(p0)
         q1 = prog.build_program(p1)
@@ -232,9 +242,8 @@ def check_one(cls, position, orderby, L, O, plan_steps, par):
             nums = [int(t.text[1:]) for t in t1 if t.kind == "param" and t.text.startswith("$")]
             if nums != list(range(1, len(nums) + 1)):
                 out.append(("numbering", "%r" % s1))
-    setop = position == "setop_self"
     fails = []
-    for pat in tail_grammar(cls, L, O, orderby, setop):
+    for pat in tail_grammar(cls, L, O, orderby, False):
         f = match_tail(tail, pat, L, O, tailvals)
         if f is None:
             fails = []
@@ -242,7 +251,7 @@ def check_one(cls, position, orderby, L, O, plan_steps, par):
         fails.append(f)
     if fails:
         out.append((fails[0], "%s tail %r of %r (limit=%r offset=%r)" % (cls, " ".join(t.text for t in tail), s1, L, O)))
-    if cls == "sqlite" and position in ("top", "from_sub", "setop_self") and (orderby or (L is None and O is None)) and not out:
+    if exec_ok and not out:
         # meaning: skip m rows, then at most n
         try:
             if par:
@@ -257,6 +266,122 @@ def check_one(cls, position, orderby, L, O, plan_steps, par):
                 out.append(("rows", "%r returned %r, expected %r" % (s1, rows, want)))
         except sqlite3.Error as e:
             out.append(("engine_reject", "%r: %s" % (s1, e)))
+    return out
+
+
+# ---- second family: pagination at two query nodes at once, any values, other parameters around --------------------------------
+
+TWO_POS = ["from_sub", "in_sub", "setop"]
+BIG = [2 ** 31 - 1, 2 ** 31, 2 ** 63 - 1, 10 ** 12, 4294967296]
+
+
+def pag_steps(L, O, order):
+    lim = ["limit", [["py", L]]] if L is not None else None
+    off = ["offset", [["py", O]]] if O is not None else None
+    if order == "slice" and L is not None and O is not None:
+        return [["slice", [["slice", O, L]]]]
+    st_ = [x for x in ((off, lim) if order == "ol" else (lim, off)) if x is not None]
+    return st_
+
+
+def program2(case, with_inner=True, with_outer=True):
+    cls, pos = case["cls"], case["pos"]
+    src = {"R": ["tbl", "r", None, None], "R2": ["tbl", "r2", None, None]}
+    unwrapped = cls == "sqlite" and pos == "setop"
+    kw = {"wrap_set_operation_queries": ["py", False]} if unwrapped else {}
+    ist = [["from_", [["src", "R"]], kw], ["select", [["col", "R", "id"]]], ["where", [["gt", ["col", "R", "id"], ["raw", case["wv"]]]]]]
+    if case["oi"]:
+        ist.append(["orderby", [["col", "R", "id"]]])
+    if with_inner:
+        ist += pag_steps(case["Li"], case["Oi"], case["order"])
+    outer_pag = pag_steps(case["Lo"], case["Oo"], case["order"] if pos != "setop" or case["order"] != "slice" else "lo") if with_outer else []
+    if pos == "setop":
+        other = {"cls": "inherit", "sources": {}, "steps": [["from_", [["src", "R2"]]], ["select", [["col", "R2", "id"]]], ["where", [["lt", ["col", "R2", "id"], ["raw", 100 + case["wv"]]]]]]}
+        steps = ist + [["union_all", [["q", other]]]]
+        if case["oo"]:
+            steps.append(["orderby", [["col", "R", "id"]]])
+        return {"cls": cls, "sources": src, "steps": steps + outer_pag}
+    inner = {"cls": "inherit", "sources": {}, "steps": ist}
+    if pos == "from_sub":
+        src["SQ"] = ["sub", dict(inner, sources={}), "sq"]
+        steps = [["from_", [["src", "SQ"]]], ["select", [["col", "SQ", "id"]]], ["where", [["lt", ["col", "SQ", "id"], ["raw", 100 + case["wv"]]]]]]
+        if case["oo"]:
+            steps.append(["orderby", [["col", "SQ", "id"]]])
+    else:
+        steps = [["from_", [["src", "R2"]]], ["select", [["col", "R2", "id"]]], ["where", [["in", ["col", "R2", "id"], ["q", inner]]]], ["where", [["lt", ["col", "R2", "id"], ["raw", 100 + case["wv"]]]]]]
+        if case["oo"]:
+            steps.append(["orderby", [["col", "R2", "id"]]])
+    return {"cls": cls, "sources": src, "steps": steps + outer_pag}
+
+
+_con2 = None
+
+
+def db2():
+    global _con2
+    if _con2 is None:
+        _con2 = sqlite3.connect(":memory:")
+        _con2.execute("CREATE TABLE r (id INTEGER PRIMARY KEY)")
+        _con2.execute("CREATE TABLE r2 (id INTEGER PRIMARY KEY)")
+        _con2.executemany("INSERT INTO r VALUES (?)", [(i,) for i in range(1, 11)])
+        _con2.executemany("INSERT INTO r2 VALUES (?)", [(i,) for i in range(1, 9)])
+    return _con2
+
+
+def _sl(rows, L, O):
+    m = O or 0
+    return rows[m:] if L is None else rows[m:m + L]
+
+
+def model_rows(case):
+    """expected result of the SQLite statement, or None where SQL leaves the order of the rows that are cut undefined"""
+    pos = case["pos"]
+    inner = [i for i in range(1, 11) if i > case["wv"]]
+    ipag = case["Li"] is not None or case["Oi"] is not None
+    opag = case["Lo"] is not None or case["Oo"] is not None
+    if (ipag and not case["oi"]) or (opag and not case["oo"]):
+        return None
+    if pos == "from_sub":
+        rows = _sl(inner, case["Li"], case["Oi"])
+        rows = [i for i in rows if i < 100 + case["wv"]]
+        return _sl(rows, case["Lo"], case["Oo"]) if case["oo"] or not opag else None
+    if pos == "in_sub":
+        sel = set(_sl(inner, case["Li"], case["Oi"]))
+        rows = [i for i in range(1, 9) if i in sel]
+        return _sl(rows, case["Lo"], case["Oo"])
+    if ipag or case["oi"]:
+        return None  # SQLite has neither ORDER BY nor pagination of a compound operand
+    rows = sorted(inner + list(range(1, 9)))
+    return _sl(rows, case["Lo"], case["Oo"])
+
+
+def check_two(case):
+    cls, par = case["cls"], case["par"]
+    out = []
+    full = program2(case)
+    for level, L, O, ob, p0 in (("inner", case["Li"], case["Oi"], case["oi"], program2(case, with_inner=False)),
+                                ("outer", case["Lo"], case["Oo"], case["oo"], program2(case, with_outer=False))):
+        if L is None and O is None:
+            continue
+        for kind, detail in check_pair(cls, p0, full, L, O, ob, par, False):
+            grp = "setop" if case["pos"] == "setop" and level == "outer" else "query"
+            out.append((mksig(cls, "two", grp, level, shape(L, O), kind), detail))
+    if cls == "sqlite" and not out:
+        want = model_rows(case)
+        if want is not None:
+            try:
+                q = prog.build_program(full)
+                if par:
+                    sql, vals = prog.render(q, cls, True)
+                    rows = db2().execute(sql, vals).fetchall()
+                else:
+                    sql = prog.render(q, cls)
+                    rows = db2().execute(sql).fetchall()
+                got = [r[0] for r in rows]
+                if (got if case["oo"] else sorted(got)) != want:
+                    out.append((mksig(cls, "two", "rows"), "%r returned %r, the calls mean %r" % (sql, got, want)))
+            except sqlite3.Error as e:
+                out.append((mksig(cls, "two", "engine_reject"), "%r: %s" % (sql, e)))
     return out
 
 
@@ -302,6 +427,8 @@ def steps_of(case):
 
 
 def check_case(case):
+    if case.get("mode") == "two":
+        return check_two(case)
     if case.get("mode") == "top":
         return [(mksig("mssql", "top", k), d) for k, d in check_top("mssql", case["k"], False)]
     res = check_one(case["cls"], case["pos"], case["orderby"], case["L"], case["O"], steps_of(case), case["par"])
@@ -310,6 +437,10 @@ def check_case(case):
 
 def valid_case(case):
     try:
+        if case.get("mode") == "two":
+            okv = lambda v: v is None or (isinstance(v, int) and not isinstance(v, bool) and 0 <= v < 2 ** 63)  # noqa: E731
+            return case["cls"] in CTXS and case["pos"] in TWO_POS and all(okv(case[k]) for k in ("Li", "Oi", "Lo", "Oo")) and case["order"] in ("lo", "ol", "slice") and \
+                isinstance(case["wv"], int) and 0 <= case["wv"] <= 9 and all(case[k] in (True, False) for k in ("oi", "oo", "par"))
         if case.get("mode") == "top":
             return case["k"] in (0, 5)
         return case["cls"] in CTXS and case["pos"] in POSITIONS and case["L"] in (None, 0, LV) and case["O"] in (None, 0, OV) and bool(steps_of(case) is not None)
@@ -318,11 +449,39 @@ def valid_case(case):
 
 
 def shards(tier, sd):
-    return [(tier, c) for c in CTXS]
+    n = 4 if tier == "quick" else 16
+    return [(tier, c) for c in CTXS] + [("two:" + tier, sd * 1000 + k) for k in range(n)]
+
+
+def two_cases():
+    val = st.one_of(st.none(), st.integers(0, 12), st.integers(0, 12), st.sampled_from(BIG), st.integers(0, 2 ** 63 - 1))
+    return st.fixed_dictionaries({"mode": st.just("two"), "cls": st.sampled_from(CTXS), "pos": st.sampled_from(TWO_POS), "oi": st.booleans(), "oo": st.booleans(),
+                                  "Li": val, "Oi": val, "Lo": val, "Oo": val, "par": st.booleans(), "wv": st.integers(0, 5), "order": st.sampled_from(["lo", "ol", "slice"])})
+
+
+def run_two_shard(tier, sd):
+    col = Collector()
+    nex = 400 if tier.endswith("quick") else 6000
+
+    @seed(sd)
+    @settings(max_examples=nex, database=None, deadline=None, suppress_health_check=list(HealthCheck), report_multiple_bugs=False)
+    @given(two_cases())
+    def prop(case):
+        inner = case["Li"] is not None or case["Oi"] is not None
+        outer = case["Lo"] is not None or case["Oo"] is not None
+        executed = case["cls"] == "sqlite" and model_rows(case) is not None
+        col.case(case, inner and outer, classes=("two:" + case["pos"], "cls:" + case["cls"], "levels:%d" % (int(inner) + int(outer)), "executed:%s" % executed))
+        for sig, detail in check_two(case):
+            col.violation(sig, case, detail)
+
+    prop()
+    return col
 
 
 def run_shard(shard):
     tier, cls = shard
+    if tier.startswith("two:"):
+        return run_two_shard(tier, cls)
     col = Collector()
     n = 0
     for case in all_cases():
